@@ -23,7 +23,7 @@ Section Atomic.
     nth_error (p_inputs st') j = nth_error (p_inputs st) j.
   Proof.
     intros H Hne. pose proof (specM st i m) as S. rewrite H in S.
-    destruct S as (a & Hn & [[_ ->]|(Hf & s & w & _ & ->)]); auto.
+    destruct S as (a & Hn & [[_ ->]|(Hf & s & w & _ & ->)] & _); auto.
     simpl. apply nth_set_nth_neq. auto.
   Qed.
 
@@ -34,7 +34,7 @@ Section Atomic.
   Proof.
     intros H Hn Hf. destruct (Nat.eq_dec j i) as [->|Hne].
     - pose proof (specM st i m) as S. rewrite H in S.
-      destruct S as (a0 & Hn0 & [[_ ->]|(Hf0 & _)]); auto. congruence.
+      destruct S as (a0 & Hn0 & [[_ ->]|(Hf0 & _)] & _); auto. congruence.
     - rewrite (finalize_input_other _ _ _ _ _ H Hne). exact Hn.
   Qed.
 
@@ -43,7 +43,7 @@ Section Atomic.
     nth_error (p_inputs (fst (fst (fin_mut_loop try_input m idxs st errs)))) j = Some a.
   Proof.
     induction idxs as [|i r IH]; intros st errs j a Hn Hf; simpl; auto.
-    destruct (finalize_inputM st i m) as [st1|e|] eqn:H; simpl; auto.
+    destruct (finalize_inputM st i m) as [st1|k e|] eqn:H; simpl; auto.
     apply IH; auto. eapply finalize_input_keeps_final; eauto.
   Qed.
 
@@ -52,7 +52,7 @@ Section Atomic.
     nth_error (p_inputs (fst (fin_old_loop try_input m idxs st))) j = Some a.
   Proof.
     induction idxs as [|i r IH]; intros st j a Hn Hf; simpl; auto.
-    destruct (finalize_inputM st i m) as [st1|e|] eqn:H; simpl; auto.
+    destruct (finalize_inputM st i m) as [st1|k e|] eqn:H; simpl; auto.
     apply IH; auto. eapply finalize_input_keeps_final; eauto.
   Qed.
 
@@ -89,80 +89,114 @@ Section Atomic.
     destruct (finalize_inputM st i (inp_mall m)); inversion H; subst; auto. congruence.
   Qed.
 
-  (* and the error it reports is try_input's, evaluated on the untouched state *)
-  Theorem fail_reports_try : forall st i m st' e,
-    stepM st (FinalizeInp i m) = (st', RInputErr i e) ->
+  (* and the error it reports is either MissingUtxo for this input (get_utxo: no previous
+     output can be found - e.g. a non_witness_utxo of another transaction) or try_input's,
+     evaluated on the untouched state; the reported index [k] is the one the code puts into
+     Error::InputError, which for `prevouts` is the first input without a findable utxo *)
+  Theorem fail_reports_try : forall st i m st' k e,
+    stepM st (FinalizeInp i m) = (st', RInputErr k e) ->
     exists a, nth_error (p_inputs st) i = Some a /\ is_final a = false /\
-              try_input st i (inp_mall m) = TErr e.
+              ((get_utxo a = None /\ k = i /\ e = e_missing_utxo) \/
+               (get_utxo a <> None /\ try_input st i (inp_mall m) = TErr k e)).
   Proof.
-    intros st i m st' e H. simpl in H. unfold finalize_inp in H.
+    intros st i m st' k e H. simpl in H. unfold finalize_inp in H.
     destruct (length (p_inputs st) <=? i); [inversion H|].
     pose proof (specM st i (inp_mall m)) as S.
     destruct (finalize_inputM st i (inp_mall m)); inversion H; subst. exact S.
   Qed.
 
-  (* ---- finalize_mut: exact account of one pass *)
+  (* ================= an input whose spent output cannot be found is never finalized ========
+     get_utxo a = None: no utxo field, or a non_witness_utxo that is not the transaction the
+     outpoint names, or an outpoint beyond its outputs - whatever witness_utxo says *)
+  Theorem bad_utxo_fails : forall st i m a,
+    nth_error (p_inputs st) i = Some a -> is_final a = false -> get_utxo a = None ->
+    stepM st (FinalizeInp i m) = (st, RInputErr i e_missing_utxo).
+  Proof.
+    intros st i m a Hn Hf Hu. simpl. unfold finalize_inp.
+    destruct (Nat.leb_spec (length (p_inputs st)) i) as [Hle|Hlt].
+    - apply nth_error_None in Hle. congruence.
+    - unfold finalize_input. rewrite Hn, Hf, Hu. reflexivity.
+  Qed.
+
+  Lemma fin_mut_loop_no_panic_aux m idxs : forall st errs,
+    (forall i, In i idxs -> i < length (p_inputs st)) ->
+    snd (fin_mut_loop try_input m idxs st errs) = false.
+  Proof.
+    induction idxs as [|i r IH]; intros st errs Hlt; simpl; auto.
+    pose proof (specM st i m) as S.
+    destruct (finalize_inputM st i m) as [st1|k e|] eqn:Hfi.
+    - apply IH. intros j Hj. rewrite (sreach_length _ _ (finalize_input_sreach _ _ _ _ _ Hfi)).
+      apply Hlt; right; auto.
+    - apply IH. intros j Hj. apply Hlt; right; auto.
+    - specialize (Hlt i (or_introl eq_refl)). lia.
+  Qed.
+
+  (* ---- finalize_mut: exact account of one pass.  Every input is afterwards either identical
+     or the finalized form of what it was; inputs outside [idxs] are identical. *)
+  Definition fin_or_same (a a' : pinput) : Prop :=
+    a' = a \/ (is_final a = false /\ get_utxo a <> None /\ exists s w, a' = cleared a s w).
+
   Lemma fin_mut_loop_spec m idxs : NoDup idxs -> forall st errs st' es p,
     fin_mut_loop try_input m idxs st errs = (st', es, p) -> p = false ->
-    exists new, es = errs ++ new /\
-      (forall i e, In (i, e) new ->
-         In i idxs /\ nth_error (p_inputs st') i = nth_error (p_inputs st) i /\
-         exists a, nth_error (p_inputs st) i = Some a /\ is_final a = false) /\
-      (forall i, ~ In i idxs -> nth_error (p_inputs st') i = nth_error (p_inputs st) i).
+    (forall i a, nth_error (p_inputs st) i = Some a ->
+       exists a', nth_error (p_inputs st') i = Some a' /\ fin_or_same a a') /\
+    (forall i, ~ In i idxs -> nth_error (p_inputs st') i = nth_error (p_inputs st) i).
   Proof.
     induction 1 as [|i r Hni Hnd IH]; intros st errs st' es p H Hp; simpl in H.
-    - inversion H; subst. exists []. rewrite app_nil_r. split; [reflexivity|].
-      split; [intros i e Hin; destruct Hin|auto].
+    - inversion H; subst. split; auto. intros i a Ha. exists a. split; auto. left; auto.
     - pose proof (specM st i m) as S.
-      destruct (finalize_inputM st i m) as [st1|e|] eqn:Hfi.
-      + destruct (IH _ _ _ _ _ H Hp) as (new & -> & Hnew & Hout).
-        exists new. split; auto. split.
-        * intros j e Hin. destruct (Hnew j e Hin) as (Hjr & Hj & a & Ha & Hfa).
-          assert (j <> i) by (intro; subst; auto).
-          rewrite (finalize_input_other _ _ _ _ _ Hfi H0) in Hj, Ha.
-          split; [right; auto|]. split; auto. eauto.
+      destruct (finalize_inputM st i m) as [st1|k e|] eqn:Hfi.
+      + destruct (IH _ _ _ _ _ H Hp) as (Hall & Hout). split.
+        * intros j a Ha. destruct (Nat.eq_dec j i) as [->|Hji].
+          -- rewrite (Hout i Hni).
+             destruct S as (a0 & Ha0 & [[_ ->]|(Hf & s & w & _ & ->)] & Hu).
+             ++ exists a. split; auto. left; auto.
+             ++ assert (a0 = a) by congruence. subst a0. exists (cleared a s w). split.
+                ** simpl. eapply nth_set_nth_eq; eauto.
+                ** right. split; auto. split; auto. eauto.
+          -- rewrite <- (finalize_input_other _ _ _ _ j Hfi Hji) in Ha. apply Hall; auto.
         * intros j Hj. assert (j <> i) by (intro; subst; apply Hj; left; auto).
           rewrite Hout by (intro; apply Hj; right; auto).
           apply (finalize_input_other _ _ _ _ _ Hfi H0).
-      + destruct (IH _ _ _ _ _ H Hp) as (new & -> & Hnew & Hout).
-        exists ((i, e) :: new). split. now rewrite <- app_assoc. split.
-        * intros j e' [Heq|Hin].
-          -- inversion Heq; subst. destruct S as (a & Ha & Hfa & _).
-             split; [left; auto|]. split; [apply Hout; auto|]. eauto.
-          -- destruct (Hnew j e' Hin) as (Hjr & Hj & Hex). split; [right; auto|]. auto.
-        * intros j Hj. apply Hout. intro; apply Hj; right; auto.
+      + destruct (IH _ _ _ _ _ H Hp) as (Hall & Hout). split; auto.
+        intros j Hj. apply Hout. intro; apply Hj; right; auto.
       + inversion H; subst. discriminate.
   Qed.
 
   (* ================= fail_untouched for finalize_mut / finalize_mall_mut =================
-     every input reported as failed is bit-identical afterwards (other inputs may have been
-     finalized by the same call: the call is atomic per input, not per PSBT) *)
-  Theorem finalize_mut_failed_untouched : forall st m st' es,
-    stepM st (Finalize m) = (st', RFinErrs es) ->
-    forall i e, In (i, e) es ->
-      nth_error (p_inputs st') i = nth_error (p_inputs st) i /\
-      exists a, nth_error (p_inputs st) i = Some a /\ is_final a = false.
+     whatever the call returns, every input is afterwards bit-identical or has been finalized
+     (it was not final, its spent output could be found, and it now is `cleared a s w`): an
+     input that could not be finalized is untouched; the call is atomic per input, not per PSBT.
+     (The indices in the error vector are the code's: `prevouts` blames the first input whose
+     utxo is missing, so they do not always name the input whose attempt failed.) *)
+  Theorem finalize_mut_failed_untouched : forall st m st' r,
+    stepM st (Finalize m) = (st', r) ->
+    forall i a, nth_error (p_inputs st) i = Some a ->
+      exists a', nth_error (p_inputs st') i = Some a' /\ fin_or_same a a'.
   Proof.
-    intros st m st' es H i e Hin. simpl in H. unfold finalize_mut in H.
+    intros st m st' r H i a Ha. simpl in H. unfold finalize_mut in H.
     destruct (fin_mut_loop try_input m (seq 0 (length (p_inputs st))) st []) as [[st1 es1] p] eqn:L.
-    destruct p; [destruct es1; inversion H|].
-    assert (st1 = st' /\ es1 = es) as [-> ->] by (destruct es1; inversion H; auto).
-    destruct (fin_mut_loop_spec m _ (seq_NoDup _ _) _ _ _ _ _ L eq_refl) as (new & E & Hnew & _).
-    simpl in E. subst. destruct (Hnew i e Hin) as (_ & Hn & Hex). auto.
+    destruct p.
+    - exfalso. pose proof (fin_mut_loop_no_panic_aux m (seq 0 (length (p_inputs st))) st []) as N.
+      rewrite L in N. simpl in N. assert (true = false); [|discriminate]. apply N.
+      intros k Hk. apply in_seq in Hk. lia.
+    - assert (st1 = st') by (destruct es1; inversion H; auto). subst st1.
+      destruct (fin_mut_loop_spec m _ (seq_NoDup _ _) _ _ _ _ _ L eq_refl) as (Hall & _). auto.
   Qed.
 
   (* psbt::finalize / finalize_mall (finalize_helper) stop at the first failure: the failing
      input is untouched, inputs before it that could be finalized stay finalized *)
-  Lemma fin_old_loop_fail m idxs : NoDup idxs -> forall st st' i e,
-    fin_old_loop try_input m idxs st = (st', RInputErr i e) ->
-    In i idxs /\ exists a, nth_error (p_inputs st') i = Some a /\ is_final a = false /\
-                           try_input st' i m = TErr e.
+  Lemma fin_old_loop_fail m idxs : NoDup idxs -> forall st st' k e,
+    fin_old_loop try_input m idxs st = (st', RInputErr k e) ->
+    exists i a, In i idxs /\ nth_error (p_inputs st') i = Some a /\ is_final a = false /\
+      ((get_utxo a = None /\ k = i /\ e = e_missing_utxo) \/
+       (get_utxo a <> None /\ try_input st' i m = TErr k e)).
   Proof.
-    induction 1 as [|k r Hni Hnd IH]; intros st st' i e H; simpl in H; [discriminate|].
-    pose proof (specM st k m) as S.
-    destruct (finalize_inputM st k m) as [st1|e1|] eqn:Hfi.
-    - destruct (IH _ _ _ _ H) as (Hin & Hex). split; [right; auto|auto].
-    - inversion H; subst. split; [left; auto|]. destruct S as (a & Ha & Hf & Ht). eauto.
+    induction 1 as [|j r Hni Hnd IH]; intros st st' k e H; simpl in H; [discriminate|].
+    pose proof (specM st j m) as S.
+    destruct (finalize_inputM st j m) as [st1|k1 e1|] eqn:Hfi.
+    - destruct (IH _ _ _ _ H) as (i & a & Hin & Hex). exists i, a. split; [right; auto|auto].
+    - inversion H; subst. destruct S as (a & Ha & Hf & Hc). exists j, a. split; [left; auto|auto].
     - discriminate.
   Qed.
 
@@ -172,7 +206,7 @@ Section Atomic.
   Theorem success_valid : forall st i m st' a,
     stepM st (FinalizeInp i m) = (st', ROk) ->
     nth_error (p_inputs st) i = Some a -> is_final a = false ->
-    exists s w, try_input st i (inp_mall m) = TOk s w /\
+    exists s w, get_utxo a <> None /\ try_input st i (inp_mall m) = TOk s w /\
       st' = with_inputs st (set_nth i (cleared a s w) (p_inputs st)) /\
       nth_error (p_inputs st') i = Some (cleared a s w) /\
       (forall j, j <> i -> nth_error (p_inputs st') j = nth_error (p_inputs st) j).
@@ -180,9 +214,9 @@ Section Atomic.
     intros st i m st' a H Hn Hf. simpl in H. unfold finalize_inp in H.
     destruct (length (p_inputs st) <=? i); [inversion H|].
     pose proof (specM st i (inp_mall m)) as S.
-    destruct (finalize_inputM st i (inp_mall m)) as [st1|e|]; inversion H; subst.
-    destruct S as (a0 & Hn0 & [[Hf0 _]|(_ & s & w & Ht & ->)]); [congruence|].
-    assert (a0 = a) by congruence. subst. exists s, w. repeat split; auto.
+    destruct (finalize_inputM st i (inp_mall m)) as [st1|k e|]; inversion H; subst.
+    destruct S as (a0 & Hn0 & [[Hf0 _]|(_ & s & w & Ht & ->)] & Hu); [congruence|].
+    assert (a0 = a) by congruence. subst. exists s, w. split; [auto|]. repeat split; auto.
     - simpl. eapply nth_set_nth_eq; eauto.
     - intros j Hj. simpl. apply nth_set_nth_neq. auto.
   Qed.
@@ -237,7 +271,7 @@ Section Atomic.
   Proof.
     induction idxs as [|i r IH]; intros st errs Hlt; simpl; auto.
     pose proof (specM st i m) as S.
-    destruct (finalize_inputM st i m) as [st1|e|] eqn:Hfi.
+    destruct (finalize_inputM st i m) as [st1|k e|] eqn:Hfi.
     - apply IH. intros j Hj. rewrite (sreach_length _ _ (finalize_input_sreach _ _ _ _ _ Hfi)).
       apply Hlt; right; auto.
     - apply IH. intros j Hj. apply Hlt; right; auto.
@@ -250,7 +284,7 @@ Section Atomic.
   Proof.
     induction idxs as [|i r IH]; intros st Hlt s; simpl; [discriminate|].
     pose proof (specM st i m) as S.
-    destruct (finalize_inputM st i m) as [st1|e|] eqn:Hfi; simpl.
+    destruct (finalize_inputM st i m) as [st1|k e|] eqn:Hfi; simpl.
     - apply IH. intros j Hj. rewrite (sreach_length _ _ (finalize_input_sreach _ _ _ _ _ Hfi)).
       apply Hlt; right; auto.
     - discriminate.
